@@ -206,3 +206,9 @@ def r5(ctx):
     bad = [o for o in outs if [e.name for e in o.effects].count("WebSocket()") > 1 or "sleep" in [e.name for e in o.effects]]
     ctx.ob(f"{RF}:reconnect=0:never-reconnects", not bad and bool(outs), f"{len(outs)} runs, none reconnects" if not bad else
            f"reconnect=0 but effects {[e.name for e in bad[0].effects][:12]}", idx.loc(fn))
+
+
+@rule("R-C15-6", min_instances=4, title="loss by ping timeout is detectable while traffic flows: the check runs on every dispatcher iteration (shared with R-C13-4)")
+def r6(ctx):
+    from .c13 import r4 as dispatcher_skeleton
+    dispatcher_skeleton(ctx)
